@@ -38,6 +38,17 @@ type monStore struct {
 	bad    []string
 	values [][]byte // values written since the last drain (serialised trie batches)
 	rec    *[][2][]byte
+	// keys of the trie batches written since the last drain (one commit), hex of the 32-byte hash
+	written map[string]bool
+}
+
+func (m *monStore) noteWrite(k []byte) {
+	if bytes.HasPrefix(k, dbkey.Trie(nil)) && len(k) == triePrefix+trie.HashLength {
+		if m.written == nil {
+			m.written = map[string]bool{}
+		}
+		m.written[hex.EncodeToString(k[triePrefix:])] = true
+	}
 }
 
 // Get records the pairs read while rec is set (what a fresh instance loads on its way down to a key).
@@ -68,6 +79,7 @@ type monTx struct {
 }
 
 func (t *monTx) Set(k, v []byte) {
+	t.m.noteWrite(k)
 	if len(t.m.values) < 64 {
 		t.m.values = append(t.m.values, append([]byte{}, v...))
 	}
@@ -87,6 +99,7 @@ type monBulk struct {
 }
 
 func (t *monBulk) Set(k, v []byte) {
+	t.m.noteWrite(k)
 	if len(t.m.values) < 64 && bytes.HasPrefix(k, dbkey.Trie(nil)) && len(k) == triePrefix+trie.HashLength {
 		t.m.values = append(t.m.values, append([]byte{}, v...))
 	}
@@ -181,6 +194,7 @@ type sess struct {
 	univ    [][]byte
 	log     []string
 	cacheH  int
+	track   bool // the model follows updatedNodes (op wset before every commit)
 }
 
 func newStore() *monStore {
@@ -198,8 +212,81 @@ func newSess(run *vh.Run, univ [][]byte, cacheH int) *sess {
 	if cacheH > 0 {
 		s.tr.CacheHeightLimit = cacheH
 	}
-	s.op(fmt.Sprintf("new %d", cacheH), "ok", false)
+	// the updatedNodes bookkeeping is followed on the sessions with small universes and no live cache
+	s.track = cacheH == 0 && len(univ) <= 40
+	if s.track {
+		s.op(fmt.Sprintf("new %d w", cacheH), "ok", false)
+	} else {
+		s.op(fmt.Sprintf("new %d", cacheH), "ok", false)
+	}
 	return s
+}
+
+// wset: which batch roots of the committed tree did this commit write (by path from the root), and how many written
+// batches are not part of the tree. The real side walks the whole committed tree through the store (so every batch
+// the tree needs is also checked to be there); the model side is its updatedNodes after the same updates.
+func (s *sess) wset(root []byte) {
+	written := s.store.written
+	s.store.written = nil
+	if !s.track {
+		return
+	}
+	type item struct {
+		path string
+		ref  []byte
+	}
+	var live []string
+	hit := map[string]bool{}
+	var stack []item
+	if len(root) != 0 {
+		stack = append(stack, item{"", root})
+	}
+	n := 0
+	for len(stack) > 0 {
+		it := stack[len(stack)-1]
+		stack = stack[:len(stack)-1]
+		n++
+		hx := hex.EncodeToString(it.ref[:trie.HashLength])
+		if written[hx] {
+			hit[hx] = true
+			name := it.path
+			if name == "" {
+				name = "-"
+			}
+			live = append(live, name)
+		}
+		v := s.store.DB.Get(dbkey.Trie(it.ref[:trie.HashLength]))
+		if len(v) == 0 {
+			s.fail(fmt.Sprintf("after the commit the store has nothing under the batch root %s at path %q of the committed tree", hx, it.path))
+			return
+		}
+		var b [][]byte
+		if out, _ := vh.Guard(func() string { b = trie.VerifC10ParseBatch(v); return "" }); out != "" || b == nil {
+			s.fail("parseBatch panics on the stored batch " + hx)
+			return
+		}
+		if b[0][0] == 1 {
+			continue
+		}
+		for i := 15; i <= 30; i++ {
+			if len(b[i]) != 0 && b[i][trie.HashLength] != 2 {
+				stack = append(stack, item{it.path + slotPath(i), b[i]})
+			}
+		}
+	}
+	sort.Strings(live)
+	orphans := 0
+	for k := range written {
+		if !hit[k] {
+			orphans++
+		}
+	}
+	s.op("wset", fmt.Sprintf("wset %s orphans=%d", strings.Join(live, ","), orphans), len(live) > 0)
+	s.run.Count(fmt.Sprintf("wset-batches-in-tree=%d", min(n, 32)/4*4))
+	s.run.Count(fmt.Sprintf("wset-written=%d", min(len(written), 16)))
+	if orphans > 0 {
+		s.run.Count("wset-commit-wrote-batches-outside-the-tree")
+	}
 }
 
 func rootStr(r []byte) string {
@@ -333,6 +420,7 @@ func (s *sess) commit() {
 		m[k] = v
 	}
 	s.commits = append(s.commits, commitRec{append([]byte{}, s.tr.Root...), m})
+	s.wset(s.tr.Root)
 	s.op("commit", fmt.Sprintf("ok %d", len(s.commits)-1), false)
 	s.batchCodec()
 	s.storeLayer()
@@ -900,6 +988,10 @@ func replay(run *vh.Run) {
 				ch, _ = strconv.Atoi(f[1])
 			}
 			s = newSess(run, nil, ch)
+			if len(f) <= 2 && s.track {
+				// the recorded session did not follow updatedNodes: keep its op stream as it was
+				s.track = false
+			}
 		case "update":
 			var batch []kv
 			for _, p := range f[1:] {
